@@ -109,3 +109,21 @@ def enum_class_rule(ename):
         (r'enum\s+class\s+%s\s*:\s*std::uint8_t\s*\{([^}]*)\}' % ename, repl, 1, 1),
         (r'\b%s::(\w+)' % ename, r'%s_\1' % ename, 1),
     ]
+
+
+def conversion_sign(kb, what):
+    """C text of ValueFlow::getConversionSign (lib/vf_common.cpp): the signedness a conversion to the type uses - plain char has
+    the platform's default sign.  Returns (text, rules fired); the text declares `char g_default_sign` (Platform::defaultSign)."""
+    from vlib.kernel import located_rules
+    loc = extract.locate_function("lib/vf_common.cpp", r'^\s*ValueType::Sign getConversionSign\(const ValueType& vt, const Settings& settings\)')
+    kb.add_located("ValueFlow::getConversionSign", loc)
+    t, n = located_rules(loc, VT_RULES + [
+        (r'^\s*enum Sign getConversionSign\(const ValueType& vt, const Settings& settings\)', 'static enum Sign getConversionSign(enum VType vt_type, enum Sign vt_sign, char defaultSign)', 1, 1),
+        (r'\bvt\.(type|sign)\b', r'vt_\1', 3, 3),
+        (r'\bsettings\.platform\.defaultSign\b', 'defaultSign', 4, 4),
+    ], what + ".getConversionSign")
+    return "char g_default_sign;   /* Platform::defaultSign */\n" + extract.strip_comments(t) + "\n", n
+
+
+# rule lowering the call for kernels whose destination type is `const struct ValueType *dst`
+CONVERSION_SIGN_CALL = (r'\b(?:ValueFlow::)?getConversionSign\(\*dst, settings\)', 'getConversionSign(dst->type, dst->sign, g_default_sign)', 0, 1)
